@@ -1,6 +1,652 @@
-//! C18 — not built yet.
-use crate::ev::Tier;
-pub fn main(_tier: Tier, _replay: Option<serde_json::Value>) -> i32 {
-    eprintln!("C18: check not built yet");
-    2
+//! C18 — compilation and proving are deterministic and schedule-independent.
+//!
+//! Parts: (a) schedule exploration under the rayon / hashbrown shims (separate
+//! workspace /verif/harness-sched, run as a sub-process and merged); (b) fresh
+//! processes of the normal build (OS-random hash seeds); (c) real rayon pools
+//! of 1..=17 threads; (d) std vs alloc-only build; (e) E6: controlled thread
+//! scheduler over the process-wide transcript label cache; (f) free-running
+//! 16-thread pass on shared keys; (g) reference prover M3 for n <= 64.
+
+use std::collections::HashMap;
+use std::process::Command;
+use std::sync::{Arc, Condvar, Mutex};
+
+use dusk_bytes::Serializable;
+use dusk_plonk::prelude::*;
+use serde_json::{json, Value};
+
+use crate::ev::{Run, Tier};
+use crate::fe::*;
+use crate::plain_subjects as plain;
+use crate::subjects::{self, Artefacts};
+
+fn diff_parts(a: &Artefacts, b: &Artefacts) -> Vec<&'static str> {
+    a.parts().iter().zip(b.parts().iter()).filter(|(x, y)| x.1 != y.1).map(|(x, _)| x.0).collect()
+}
+
+fn exec_subject(id: &str) -> Result<Artefacts, String> {
+    let s = subjects::subject(id);
+    let pp = subjects::pp_for(&s);
+    let mut noop = |_: &'static str| {};
+    match std::panic::catch_unwind(std::panic::AssertUnwindSafe(|| subjects::execute(&s, &pp, &mut noop))) {
+        Ok(r) => r,
+        Err(e) => Err(format!("panic: {}", crate::par::panic_msg(e))),
+    }
+}
+
+/// Child mode: print the hash lines of the requested subjects (fresh process).
+fn child_hashes() -> i32 {
+    let ids = std::env::var("VP_C18_CHILD").unwrap_or_default();
+    for id in ids.split(',').filter(|s| !s.is_empty()) {
+        if let Some(p) = id.strip_prefix("plain:") {
+            println!("{}", plain::hash_line(p));
+        } else {
+            match exec_subject(id) {
+                Ok(a) => println!("{} verified={}", a.hash_line(id), a.verified),
+                Err(e) => println!("child-error circuit={} {}", id, e),
+            }
+        }
+    }
+    0
+}
+
+fn spawn_self(ids: &str, threads: Option<usize>) -> Result<Vec<String>, String> {
+    let exe = std::env::current_exe().map_err(|e| e.to_string())?;
+    let mut cmd = Command::new(exe);
+    cmd.args(["C18", "quick"]).env("VP_C18_CHILD", ids);
+    if let Some(t) = threads {
+        cmd.env("RAYON_NUM_THREADS", t.to_string());
+    }
+    let out = cmd.output().map_err(|e| e.to_string())?;
+    if !out.status.success() {
+        return Err(format!("child exited with {:?}: {}", out.status.code(), String::from_utf8_lossy(&out.stderr)));
+    }
+    Ok(String::from_utf8_lossy(&out.stdout).lines().map(|l| l.to_string()).collect())
+}
+
+// ------------------------------------------------------------------ (a)
+fn part_sched(run: &mut Run, tier: Tier) {
+    let dir = "/verif/harness-sched";
+    let build = Command::new("cargo").args(["build", "--offline", "--profile", "verif"]).current_dir(dir).env("CARGO_NET_OFFLINE", "true").output();
+    match build {
+        Ok(o) if o.status.success() => {}
+        Ok(o) => {
+            run.machinery(format!("harness-sched build failed: {}", String::from_utf8_lossy(&o.stderr).lines().rev().take(12).collect::<Vec<_>>().join(" | ")));
+            return;
+        }
+        Err(e) => {
+            run.machinery(format!("cannot run cargo for harness-sched: {}", e));
+            return;
+        }
+    }
+    let out = Command::new("/verif/target-sched/verif/vp-sched").args(["C18", tier.name()]).current_dir(dir).output();
+    let out = match out {
+        Ok(o) => o,
+        Err(e) => {
+            run.machinery(format!("cannot run vp-sched: {}", e));
+            return;
+        }
+    };
+    let stdout = String::from_utf8_lossy(&out.stdout).to_string();
+    let code = out.status.code().unwrap_or(-1);
+    // re-emit violation lines of the explorer under this check
+    for l in stdout.lines() {
+        if l.starts_with("VIOLATION property=C18") {
+            let path = l.split("replay=").nth(1).unwrap_or("").to_string();
+            let sig = std::path::Path::new(&path).file_stem().map(|s| s.to_string_lossy().to_string()).unwrap_or_else(|| "sched".into());
+            run.violation(&format!("sched/{}", sig), "schedule explorer (rayon / hashbrown shims) found a schedule-dependent result", json!({"name": "sched", "explorer_replay": path}));
+        }
+    }
+    if code >= 2 || code < 0 {
+        run.machinery(format!("vp-sched exited with {} : {}", code, String::from_utf8_lossy(&out.stderr).lines().rev().take(6).collect::<Vec<_>>().join(" | ")));
+    }
+    if code == 1 && run.violations == 0 {
+        run.machinery("vp-sched reported exit 1 without a VIOLATION line".into());
+    }
+    // merge its evidence
+    let evp = format!("{}/evidence/C18-sched.json", crate::ev::verif_dir());
+    match std::fs::read_to_string(&evp).ok().and_then(|s| serde_json::from_str::<Value>(&s).ok()) {
+        None => run.machinery("C18-sched.json missing after the explorer run".into()),
+        Some(v) => {
+            let c = &v["coverage"];
+            run.states += c["states"].as_u64().unwrap_or(0);
+            run.transitions += c["transitions"].as_u64().unwrap_or(0);
+            run.traces_validated += c["traces_validated_against_impl"].as_u64().unwrap_or(0);
+            run.evaluations += c["evaluations"].as_u64().unwrap_or(0);
+            run.outcome_n("sched:schedules", c["states"].as_u64().unwrap_or(0));
+            run.outcome_n("sched:schedules-with-a-real-permutation", c["distinct_nontrivial"].as_u64().unwrap_or(0));
+            for i in 0..c["distinct_nontrivial"].as_u64().unwrap_or(0) {
+                run.nontrivial(fnv(format!("sched-{}", i).as_bytes()));
+            }
+            if !c["exhaustive"].as_bool().unwrap_or(false) {
+                run.exhaustive = false;
+            }
+            run.extra.insert("sched_explorer".into(), json!({"bounds": c["bounds"], "outcomes": c["outcomes"], "exhaustive": c["exhaustive"], "capped": c["capped"], "rule": c["rule"], "assumptions": v["assumptions"]}));
+            if let Some(s) = c["samples"].as_array().and_then(|a| a.first()) {
+                run.sample(json!({"part": "sched", "sample": s}));
+            }
+        }
+    }
+    // cross-build conformance: the shim build's reference bytes equal the real build's
+    let mut shim: HashMap<String, String> = HashMap::new();
+    for l in stdout.lines() {
+        if let Some(rest) = l.strip_prefix("key-hash circuit=") {
+            let id = rest.split(' ').next().unwrap_or("").to_string();
+            shim.insert(id, l.to_string());
+        }
+    }
+    run.gate("shim build printed reference hashes", !shim.is_empty());
+    for (id, line) in shim {
+        match exec_subject(&id) {
+            Err(e) => run.violation(&format!("conformance/{}/real-build-failed", id), &e, json!({"name": "conformance", "circuit": id})),
+            Ok(a) => {
+                run.transitions += 1;
+                run.traces_validated += 1;
+                if a.hash_line(&id) != line {
+                    run.violation(&format!("conformance/{}/shim-vs-real-bytes-differ", id), &format!("reference bytes under the shims differ from the real rayon/hashbrown build:\n  shim: {}\n  real: {}", line, a.hash_line(&id)), json!({"name": "conformance", "circuit": id}));
+                } else {
+                    run.outcome("conformance:shim-build-equals-real-build");
+                }
+            }
+        }
+    }
+}
+
+// ------------------------------------------------------------------ (b)(c)(d)
+fn part_processes_pools_builds(run: &mut Run, tier: Tier) -> HashMap<String, Artefacts> {
+    let ids: Vec<&str> = tier.pick(subjects::QUICK.to_vec(), subjects::THOROUGH.to_vec());
+    let mut refs: HashMap<String, Artefacts> = HashMap::new();
+    for id in &ids {
+        match exec_subject(id) {
+            Err(e) => run.violation(&format!("reference/{}/failed", id), &e, json!({"name": "reference", "circuit": id})),
+            Ok(a) => {
+                if !a.verified {
+                    run.violation(&format!("reference/{}/not-verified", id), "reference proof does not verify", json!({"name": "reference", "circuit": id}));
+                }
+                // repeated run in the same process
+                match exec_subject(id) {
+                    Ok(b) if b == a => run.outcome("repeat:identical"),
+                    Ok(b) => run.violation(&format!("repeat/{}/differs", id), &format!("second run in the same process differs in {:?}", diff_parts(&a, &b)), json!({"name": "repeat", "circuit": id})),
+                    Err(e) => run.violation(&format!("repeat/{}/failed", id), &e, json!({"name": "repeat", "circuit": id})),
+                }
+                run.transitions += 2;
+                run.traces_validated += 2;
+                run.nontrivial(fnv(a.hash_line(id).as_bytes()));
+                run.sample(json!({"part": "reference", "line": a.hash_line(id), "constraints": a.constraints}));
+                refs.insert(id.to_string(), a);
+            }
+        }
+    }
+    // (c) explicit rayon pools
+    let threads: Vec<usize> = tier.pick(vec![1, 2, 3, 4, 5, 17], (1..=17).chain([32]).collect());
+    for id in &ids {
+        let Some(r) = refs.get(*id) else { continue };
+        for t in &threads {
+            let pool = rayon::ThreadPoolBuilder::new().num_threads(*t).build().expect("pool");
+            let a = pool.install(|| exec_subject(id));
+            run.transitions += 1;
+            run.traces_validated += 1;
+            run.nontrivial(fnv(format!("pool{}{}", id, t).as_bytes()));
+            match a {
+                Ok(a) if a == *r => run.outcome("pool:identical"),
+                Ok(a) => run.violation(&format!("pool/{}/threads-dependent", id), &format!("with a pool of {} threads {:?} differ from the reference", t, diff_parts(r, &a)), json!({"name": "pool", "circuit": id, "threads": t})),
+                Err(e) => run.violation(&format!("pool/{}/failed", id), &format!("{} threads: {}", t, e), json!({"name": "pool", "circuit": id, "threads": t})),
+            }
+        }
+    }
+    // (b) fresh processes (per-process random hash seeds), also with RAYON_NUM_THREADS
+    let plain_ids: Vec<&str> = tier.pick(vec!["p5", "p9"], vec!["p5", "p9", "p10", "p12"]);
+    let all: String = ids.iter().map(|s| s.to_string()).chain(plain_ids.iter().map(|p| format!("plain:{}", p))).collect::<Vec<_>>().join(",");
+    let mut plain_ref: HashMap<String, String> = HashMap::new();
+    for (k, thr) in [(0, None), (1, None), (2, Some(3usize)), (3, Some(7usize))].iter().take(tier.pick(3, 4)) {
+        match spawn_self(&all, *thr) {
+            Err(e) => run.machinery(format!("fresh process {} failed: {}", k, e)),
+            Ok(lines) => {
+                for l in lines {
+                    run.transitions += 1;
+                    run.traces_validated += 1;
+                    if let Some(rest) = l.strip_prefix("key-hash circuit=") {
+                        let id = rest.split(' ').next().unwrap_or("");
+                        if let Some(r) = refs.get(id) {
+                            let want = format!("{} verified={}", r.hash_line(id), r.verified);
+                            if l != want {
+                                run.violation(&format!("fresh-process/{}/differs", id), &format!("fresh process {} (RAYON_NUM_THREADS={:?}) produced different bytes:\n  got:  {}\n  want: {}", k, thr, l, want), json!({"name": "fresh-process", "circuit": id}));
+                            } else {
+                                run.outcome("fresh-process:identical");
+                            }
+                        }
+                    } else if let Some(rest) = l.strip_prefix("plain-hash circuit=") {
+                        let id = rest.split(' ').next().unwrap_or("").to_string();
+                        match plain_ref.get(&id) {
+                            None => {
+                                plain_ref.insert(id, l);
+                            }
+                            Some(w) if *w == l => run.outcome("fresh-process:identical"),
+                            Some(w) => run.violation(&format!("fresh-process/plain-{}/differs", id), &format!("got {} want {}", l, w), json!({"name": "fresh-process", "circuit": id})),
+                        }
+                    } else if l.starts_with("child-error") {
+                        run.violation("fresh-process/child-error", &l, json!({"name": "fresh-process"}));
+                    }
+                }
+            }
+        }
+    }
+    // (d) alloc-only build
+    let dir = "/verif/harness-nostd";
+    let build = Command::new("cargo").args(["build", "--offline", "--profile", "verif"]).current_dir(dir).env("CARGO_NET_OFFLINE", "true").output();
+    match build {
+        Ok(o) if o.status.success() => {
+            let out = Command::new("/verif/target-nostd/verif/vp-alloc").args(&plain_ids).output();
+            match out {
+                Ok(o) if o.status.success() => {
+                    for l in String::from_utf8_lossy(&o.stdout).lines() {
+                        if let Some(rest) = l.strip_prefix("plain-hash circuit=") {
+                            let id = rest.split(' ').next().unwrap_or("").to_string();
+                            run.transitions += 1;
+                            run.traces_validated += 1;
+                            run.nontrivial(fnv(l.as_bytes()));
+                            // std build, in process
+                            let std_line = plain::hash_line(&id);
+                            if std_line != l {
+                                run.violation(&format!("alloc-only/{}/differs-from-std", id), &format!("alloc-only build: {}\n  std build:        {}", l, std_line), json!({"name": "alloc-only", "circuit": id}));
+                            } else {
+                                run.outcome("alloc-only:identical-to-std");
+                            }
+                            if let Some(w) = plain_ref.get(&id) {
+                                if w != l {
+                                    run.violation(&format!("alloc-only/{}/differs-from-fresh-process", id), &format!("{} vs {}", l, w), json!({"name": "alloc-only", "circuit": id}));
+                                }
+                            }
+                        }
+                    }
+                }
+                Ok(o) => run.violation("alloc-only/run-failed", &format!("vp-alloc exited with {:?}: {}", o.status.code(), String::from_utf8_lossy(&o.stderr)), json!({"name": "alloc-only"})),
+                Err(e) => run.machinery(format!("cannot run vp-alloc: {}", e)),
+            }
+        }
+        Ok(o) => run.machinery(format!("alloc-only workspace build failed: {}", String::from_utf8_lossy(&o.stderr).lines().rev().take(10).collect::<Vec<_>>().join(" | "))),
+        Err(e) => run.machinery(format!("cannot run cargo for harness-nostd: {}", e)),
+    }
+    refs
+}
+
+// ------------------------------------------------------------------ (g)
+fn part_m3(run: &mut Run) {
+    // the 2^5 subject has n = 32 <= 64: equal to the reference prover M3
+    let s = subjects::subject("g5");
+    let pp = subjects::pp_for(&s);
+    let Ok((prover, _)) = subjects::phase_compile(&s, &pp) else { return };
+    let mut rng = subjects::rng(&s);
+    let draws: Vec<Fe> = rng.draws.clone();
+    let Ok((proof, _)) = prover.prove(&mut rng, &s.prog) else { return };
+    let Some(snap) = s.prog.last_snapshot() else { return };
+    run.transitions += 1;
+    let pd = match crate::m3::parse_prover(&prover.to_bytes()) {
+        Ok(p) => p,
+        Err(e) => {
+            run.machinery(format!("m3 parse_prover: {}", e));
+            return;
+        }
+    };
+    let inst = crate::m3::Instance::from_snapshot(&snap);
+    let mut d14 = [zero(); 14];
+    d14.copy_from_slice(&draws[..14]);
+    match crate::m3::prove(&pd, &inst, &d14, crate::m3::Version::V3, &crate::m3::Adversary::default()) {
+        Ok((bytes, _)) => {
+            run.traces_validated += 1;
+            if bytes != proof.to_bytes().to_vec() {
+                run.violation("m3/g5/proof-differs-from-reference-prover", "real proof of the 2^5 subject differs from the naive reference prover M3", json!({"name": "m3"}));
+            } else {
+                run.outcome("m3:identical");
+            }
+        }
+        Err(e) => run.machinery(format!("m3 prove failed: {}", e)),
+    }
+}
+
+// ------------------------------------------------------------------ (e) E6
+/// Controlled scheduler: worker threads park at scheduling points (operation
+/// boundaries and the label-cache lock region, reported by the hook in
+/// transcript.rs); the controller runs exactly one thread at a time and
+/// explores every choice sequence up to a preemption bound.
+struct Ctl {
+    m: Mutex<CtlState>,
+    cv: Condvar,
+}
+struct CtlState {
+    /// per thread: parked at a point (Some(desc)) / running (None)
+    parked: Vec<Option<String>>,
+    done: Vec<bool>,
+    granted: Option<usize>,
+}
+
+thread_local! {
+    static TID: std::cell::Cell<Option<usize>> = const { std::cell::Cell::new(None) };
+    static CTL: std::cell::RefCell<Option<Arc<Ctl>>> = const { std::cell::RefCell::new(None) };
+}
+
+fn point(desc: &str) {
+    let tid = TID.with(|t| t.get());
+    let ctl = CTL.with(|c| c.borrow().clone());
+    let (Some(tid), Some(ctl)) = (tid, ctl) else { return };
+    let mut g = ctl.m.lock().unwrap();
+    g.parked[tid] = Some(desc.to_string());
+    ctl.cv.notify_all();
+    while g.granted != Some(tid) {
+        g = ctl.cv.wait(g).unwrap();
+    }
+    g.granted = None;
+    g.parked[tid] = None;
+}
+
+#[derive(Clone)]
+enum Op {
+    ProveV3 { key: usize, stream: u64 },
+    Verify { key: usize },
+    /// compile under a label first seen inside the execution
+    Compile,
+}
+
+struct Shared {
+    provers: Vec<Prover>,
+    verifiers: Vec<Verifier>,
+    progs: Vec<crate::prog::Prog>,
+    proofs: Vec<(Proof, Vec<Fe>)>,
+    pp: Arc<PublicParameters>,
+    fresh_label: Vec<u8>,
+}
+
+fn run_op(sh: &Shared, op: &Op) -> Vec<u8> {
+    match op {
+        Op::ProveV3 { key, stream } => {
+            let mut rng = crate::rng::ScriptedRng::base(seed(), *stream);
+            let p = sh.progs[*key].with_overrides(vec![]);
+            match sh.provers[*key].prove(&mut rng, &p) {
+                Ok((proof, pis)) => {
+                    let mut v = proof.to_bytes().to_vec();
+                    for x in pis {
+                        v.extend_from_slice(&x.to_bytes());
+                    }
+                    v
+                }
+                Err(e) => format!("ERR {:?}", e).into_bytes(),
+            }
+        }
+        Op::Verify { key } => {
+            let (proof, pis) = &sh.proofs[*key];
+            vec![sh.verifiers[*key].verify(proof, pis).is_ok() as u8]
+        }
+        Op::Compile => {
+            let p = sh.progs[0].with_overrides(vec![]);
+            match Compiler::compile_with_circuit(&sh.pp, &sh.fresh_label, &p) {
+                Ok((pr, ve)) => {
+                    let mut v = pr.to_bytes();
+                    v.extend(ve.to_bytes());
+                    v
+                }
+                Err(e) => format!("ERR {:?}", e).into_bytes(),
+            }
+        }
+    }
+}
+
+/// One controlled execution following `prefix`, default = keep running the
+/// current thread. Returns (choices taken, enabled counts, results, preemptions per step).
+fn controlled_run(sh: &Arc<Shared>, threads: &[Vec<Op>], prefix: &[usize]) -> Result<(Vec<usize>, Vec<Vec<usize>>, Vec<Vec<Vec<u8>>>), String> {
+    let n = threads.len();
+    let ctl = Arc::new(Ctl { m: Mutex::new(CtlState { parked: vec![None; n], done: vec![false; n], granted: None }), cv: Condvar::new() });
+    let results: Arc<Mutex<Vec<Vec<Vec<u8>>>>> = Arc::new(Mutex::new(vec![vec![]; n]));
+    let mut handles = vec![];
+    for (tid, ops) in threads.iter().enumerate() {
+        let (ctl2, sh2, res2, ops) = (ctl.clone(), sh.clone(), results.clone(), ops.clone());
+        handles.push(std::thread::spawn(move || {
+            TID.with(|t| t.set(Some(tid)));
+            CTL.with(|c| *c.borrow_mut() = Some(ctl2.clone()));
+            for (k, op) in ops.iter().enumerate() {
+                point(&format!("op{}", k));
+                let r = std::panic::catch_unwind(std::panic::AssertUnwindSafe(|| run_op(&sh2, op))).unwrap_or_else(|e| format!("PANIC {}", crate::par::panic_msg(e)).into_bytes());
+                res2.lock().unwrap()[tid].push(r);
+            }
+            let mut g = ctl2.m.lock().unwrap();
+            g.done[tid] = true;
+            ctl2.cv.notify_all();
+        }));
+    }
+    let mut choices = vec![];
+    let mut enabled_log = vec![];
+    let mut last: Option<usize> = None;
+    let deadline = std::time::Instant::now() + std::time::Duration::from_secs(120);
+    loop {
+        // wait until every live thread is parked
+        let mut g = ctl.m.lock().unwrap();
+        loop {
+            let all_parked = (0..n).all(|t| g.done[t] || g.parked[t].is_some());
+            if all_parked && g.granted.is_none() {
+                break;
+            }
+            let (g2, to) = ctl.cv.wait_timeout(g, std::time::Duration::from_millis(200)).unwrap();
+            g = g2;
+            if to.timed_out() && std::time::Instant::now() > deadline {
+                return Err("controlled run timed out (deadlock?)".into());
+            }
+        }
+        let enabled: Vec<usize> = (0..n).filter(|t| !g.done[*t]).collect();
+        if enabled.is_empty() {
+            break;
+        }
+        let step = choices.len();
+        // canonical order: the last running thread first, then ascending ids
+        let mut order = enabled.clone();
+        if let Some(l) = last {
+            if let Some(pos) = order.iter().position(|t| *t == l) {
+                order.remove(pos);
+                order.insert(0, l);
+            }
+        }
+        let pick = if step < prefix.len() {
+            if prefix[step] >= order.len() {
+                return Err(format!("replay divergence at step {}: choice {} of {}", step, prefix[step], order.len()));
+            }
+            prefix[step]
+        } else {
+            0
+        };
+        let t = order[pick];
+        choices.push(pick);
+        enabled_log.push(order.clone());
+        last = Some(t);
+        g.granted = Some(t);
+        ctl.cv.notify_all();
+        drop(g);
+    }
+    for h in handles {
+        let _ = h.join();
+    }
+    let res = results.lock().unwrap().clone();
+    Ok((choices, enabled_log, res))
+}
+
+fn part_e6(run: &mut Run, tier: Tier) {
+    // two circuits under two labels that are first used inside the exploration
+    let pp = crate::setup::pp(64);
+    let mk = |salt: u64| crate::prog::Prog::new(move |c| {
+        let a = c.append_witness(fe(3 + salt));
+        let b = c.append_witness(fe(5));
+        let o = c.gate_mul(Constraint::new().mult(1).a(a).b(b));
+        c.append_public(fe(15 + 5 * salt));
+        let p = c.append_witness(fe(15 + 5 * salt));
+        c.assert_equal(o, p);
+        Ok(())
+    });
+    let round = std::sync::atomic::AtomicU64::new(0);
+    let build_shared = |tag: u64| -> Arc<Shared> {
+        // fresh labels per execution so that first insertions happen inside it
+        let l1 = format!("e6-{}-{}-A", std::process::id(), tag).into_bytes();
+        let l2 = format!("e6-{}-{}-B", std::process::id(), tag).into_bytes();
+        let progs = vec![mk(0), mk(1)];
+        let (p1, v1) = Compiler::compile_with_circuit(&pp, &l1, &progs[0]).expect("compile");
+        let (p2, v2) = Compiler::compile_with_circuit(&pp, &l2, &progs[1]).expect("compile");
+        let mut proofs = vec![];
+        for (p, pr) in [(&p1, &progs[0]), (&p2, &progs[1])] {
+            let mut rng = crate::rng::ScriptedRng::base(seed(), 600);
+            proofs.push(p.prove(&mut rng, pr).expect("prove"));
+        }
+        Arc::new(Shared { provers: vec![p1, p2], verifiers: vec![v1, v2], progs, proofs, pp: pp.clone(), fresh_label: format!("e6-{}-{}-C", std::process::id(), tag).into_bytes() })
+    };
+    let callback: dusk_plonk::verif::sched::Callback = Arc::new(|region: &'static str, released: bool| {
+        point(&format!("{}:{}", region, if released { "released" } else { "acquire" }));
+    });
+    dusk_plonk::verif::sched::set_callback(Some(callback));
+    let scenarios: Vec<(&str, Vec<Vec<Op>>)> = vec![
+        ("prove|verify", vec![vec![Op::ProveV3 { key: 0, stream: 601 }, Op::Verify { key: 1 }], vec![Op::Verify { key: 0 }, Op::ProveV3 { key: 1, stream: 602 }]]),
+        ("prove|prove-same-key", vec![vec![Op::ProveV3 { key: 0, stream: 603 }], vec![Op::ProveV3 { key: 0, stream: 604 }], vec![Op::Verify { key: 0 }]]),
+        ("compile|prove", vec![vec![Op::Compile], vec![Op::ProveV3 { key: 1, stream: 605 }, Op::Verify { key: 1 }]]),
+    ];
+    let bound = tier.pick(2usize, 3usize);
+    let cap = tier.pick(400u64, 4000u64);
+    let mut total = 0u64;
+    let mut points_seen = 0u64;
+    for (sname, threads) in &scenarios {
+        // sequential reference: every op alone on the same keys (labels are
+        // fresh per execution so that first cache insertions happen inside it;
+        // the reference is therefore computed after the controlled run)
+        let sequential = |sh: &Shared| -> Vec<Vec<Vec<u8>>> { threads.iter().map(|ops| ops.iter().map(|op| run_op(sh, op)).collect()).collect() };
+        let mut stack: Vec<Vec<usize>> = vec![vec![]];
+        let mut executed = 0u64;
+        let mut distinct = std::collections::HashSet::new();
+        while let Some(prefix) = stack.pop() {
+            if executed >= cap {
+                run.capped = Some(format!("E6 scenario {} stopped at {} schedules", sname, cap));
+                break;
+            }
+            let sh = build_shared(round.fetch_add(1, std::sync::atomic::Ordering::SeqCst));
+            let (choices, enabled, res) = match controlled_run(&sh, threads, &prefix) {
+                Ok(x) => x,
+                Err(e) => {
+                    run.machinery(format!("E6 {}: {}", sname, e));
+                    break;
+                }
+            };
+            executed += 1;
+            total += 1;
+            points_seen += choices.len() as u64;
+            distinct.insert(choices.clone());
+            run.nontrivial(fnv(format!("{}{:?}", sname, choices).as_bytes()));
+            let reference = sequential(&sh);
+            if res != reference {
+                run.violation(&format!("e6/{}/differs-from-sequential", sname), &format!("schedule {:?} of scenario {} returned results that differ from the sequential calls", choices, sname), json!({"name": "e6", "scenario": sname, "schedule": choices}));
+            }
+            // replay determinism of the first schedule
+            if prefix.is_empty() {
+                let sh = build_shared(round.fetch_add(1, std::sync::atomic::Ordering::SeqCst));
+                match controlled_run(&sh, threads, &choices) {
+                    Ok((c2, _, r2)) => {
+                        // labels differ between executions, so compare with that run's own sequential results
+                        if c2 != choices || r2 != sequential(&sh) {
+                            run.machinery(format!("E6 {}: replaying the recorded schedule diverged", sname));
+                        }
+                    }
+                    Err(e) => run.machinery(format!("E6 {} replay: {}", sname, e)),
+                }
+            }
+            // expand alternatives after the prefix, within the preemption bound
+            for i in prefix.len()..choices.len() {
+                let preemptions: usize = choices[..i].iter().zip(enabled[..i].iter()).filter(|(c, _)| **c > 0).count();
+                // choosing another thread while the current one is enabled is a preemption
+                if preemptions + 1 > bound {
+                    continue;
+                }
+                for alt in 1..enabled[i].len() {
+                    let mut p = choices[..i].to_vec();
+                    p.push(alt);
+                    stack.push(p);
+                }
+            }
+        }
+        run.outcome_n(&format!("e6:{}:schedules", sname), executed);
+        run.sample(json!({"part": "e6", "scenario": sname, "schedules": executed, "distinct": distinct.len(), "preemption_bound": bound}));
+    }
+    dusk_plonk::verif::sched::set_callback(None);
+    run.states += total;
+    run.transitions += points_seen;
+    run.traces_validated += total;
+    run.bound("e6_preemption_bound", json!(bound));
+    run.gate("E6 explored more than one schedule per scenario", total > scenarios.len() as u64 * 3);
+    run.gate("E6 saw lock-region scheduling points", points_seen > total * 3);
+}
+
+// ------------------------------------------------------------------ (f)
+fn part_free_running(run: &mut Run, refs: &HashMap<String, Artefacts>) {
+    let id = "g9";
+    let Some(r) = refs.get(id) else { return };
+    let s = subjects::subject(id);
+    let pp = subjects::pp_for(&s);
+    let Ok((prover, verifier)) = subjects::phase_compile(&s, &pp) else { return };
+    let prover = Arc::new(prover);
+    let verifier = Arc::new(verifier);
+    let want_proof = r.proof.clone();
+    let results: Vec<Result<(bool, bool), String>> = std::thread::scope(|sc| {
+        let hs: Vec<_> = (0..16)
+            .map(|i| {
+                let (prover, verifier) = (prover.clone(), verifier.clone());
+                let want = want_proof.clone();
+                sc.spawn(move || {
+                    let s = subjects::subject(id);
+                    let mut out = (true, true);
+                    for _ in 0..(1 + i % 2) {
+                        let (proof, pis, _) = subjects::phase_prove(&s, &prover)?;
+                        out.0 &= proof.to_bytes().to_vec() == want;
+                        out.1 &= subjects::phase_verify(&verifier, &proof, &pis);
+                    }
+                    Ok::<_, String>(out)
+                })
+            })
+            .collect();
+        hs.into_iter().map(|h| h.join().unwrap_or_else(|_| Err("panic".into()))).collect()
+    });
+    for (i, r) in results.into_iter().enumerate() {
+        run.transitions += 1;
+        run.traces_validated += 1;
+        match r {
+            Ok((true, true)) => run.outcome("free-running:identical"),
+            Ok((same, ok)) => run.violation("free-running/g9/differs", &format!("thread {}: proof identical = {}, verified = {}", i, same, ok), json!({"name": "free-running", "thread": i})),
+            Err(e) => run.violation("free-running/g9/failed", &format!("thread {}: {}", i, e), json!({"name": "free-running", "thread": i})),
+        }
+    }
+}
+
+pub fn main(tier: Tier, _replay: Option<serde_json::Value>) -> i32 {
+    if std::env::var("VP_C18_CHILD").is_ok() {
+        return child_hashes();
+    }
+    let mut run = Run::new("C18", tier, "model_checking");
+    run.rule = "(a) deviation-bounded exploration of every parallel region (rayon shim: task orders, join orders, reduction shapes, thread counts) and hash-map iteration site (hashbrown shim) of compile / prove / verify / compress, real dusk-plonk code, byte-identity with the canonical schedule [sub-process, merged]; shim build = real build on reference bytes; (b) fresh processes (OS-random hash seeds, RAYON_NUM_THREADS); (c) explicit real pools of 1..=17 threads; (d) alloc-only build vs std build; (e) E6: exhaustive controlled-scheduler exploration (preemption-bounded DFS, scheduling points at operation boundaries and the label-cache lock region) of concurrent prove / verify / compile calls vs their sequential results; (f) 16 free-running threads on shared keys; (g) equality with the reference prover M3 for n = 32; non-trivial = schedules with a real permutation + distinct E6 schedules + distinct configurations compared".into();
+    // the schedule explorer is a separate process tree: let it run while the
+    // latency-bound parts (E6, fresh processes) proceed, then merge it
+    let sched = std::thread::spawn(move || {
+        let mut sub = Run::new("C18", tier, "model_checking");
+        part_sched(&mut sub, tier);
+        sub
+    });
+    let procs = std::thread::spawn(move || {
+        let mut sub = Run::new("C18", tier, "model_checking");
+        let refs = part_processes_pools_builds(&mut sub, tier);
+        part_free_running(&mut sub, &refs);
+        sub
+    });
+    part_e6(&mut run, tier);
+    part_m3(&mut run);
+    let sub = sched.join().expect("sched thread");
+    run.merge(sub);
+    let sub = procs.join().expect("process thread");
+    run.merge(sub);
+    run.gate("pools compared", run.count("pool:identical") > 0);
+    run.gate("fresh processes compared", run.count("fresh-process:identical") > 0);
+    run.gate("alloc-only build compared", run.count("alloc-only:identical-to-std") > 0);
+    run.assumptions = vec![
+        "parallel tasks are atomic for the schedule explorer (safe Rust, Send/Sync closures); real-thread interleavings inside a task are not explored".into(),
+        "(b),(c),(f) observe OS schedules (conformance passes), the deciding exploration is (a) and (e)".into(),
+        "E6: the label-cache critical section contains no scheduling point (whole-section atomicity follows from the mutex)".into(),
+    ];
+    run.finish()
 }
